@@ -386,6 +386,8 @@ pub trait FactoryModule:
         destination_minter: ManagedBuffer,
         sender: ManagedAddress,
     ) -> TokenId<Self::Api> {
+        self.require_not_paused();
+
         // Ensure that a token is registered locally for the tokenId before allowing a remote deployment
         let expected_token_id = self.interchain_token_id_raw(&deploy_salt);
         let token_identifier = self.registered_token_identifier(&expected_token_id);
